@@ -1,4 +1,4 @@
-CONSTANTS MaxSeq = 2 ReaderOrder = "mems-then-version" WriterOrder = "insert-then-publish" FlushOrder = "install-then-drop"
+CONSTANTS MaxSeq = 2 ReaderOrder = "mems-then-version" WriterOrder = "insert-then-publish" FlushOrder = "install-then-drop" ReaderPin = TRUE
 SPECIFICATION GenSpec
 INVARIANTS ReadCorrect Emit
 CHECK_DEADLOCK FALSE
